@@ -480,7 +480,7 @@ theorem not_valid_iff (lat lon zone : ℝ) (prj : Projection) :
     ¬ Valid lat lon zone prj ↔ Invalid lat lon zone prj := by
   unfold Valid ZoneOk Invalid
   by_cases hp : prj.pyid = isg.pyid <;> simp only [hp, ne_eq, not_true_eq_false, not_false_eq_true,
-    true_and, false_and, false_or, or_false, true_imp_iff, false_imp_iff, and_true, true_and] <;>
+    true_and, false_and, false_or, true_imp_iff, false_imp_iff, and_true, true_and] <;>
     tauto
 
 /-- `geo2grid` raises `ValueError` when any validation fails. -/
@@ -608,10 +608,12 @@ theorem geo2grid_rounding (lat lon zone : ℝ) (ell : Ellipsoid) (prj : Projecti
       |r.2.2.2.1 - (prj.cmscale * tmY ell φ ω +
           (if tmY ell φ ω < 0 then prj.falsenorth else 0))| ≤ 5 / 100000 := by
   intro φ ω
-  refine ⟨_, geo2grid_unfold lat lon zone ell prj hv, round4_close _, ?_⟩
-  by_cases h : tmY ell φ ω < 0
-  · simp only [if_pos h]; exact round4_close _
-  · simp only [if_neg h]; exact round4_close _
+  by_cases h : tmY ell (PyR.radians lat)
+      (PyR.radians (lon - cmOf prj (zoneOf prj zone lon))) < 0
+  · refine ⟨_, geo2grid_unfold lat lon zone ell prj hv, round4_close _, ?_⟩
+    simp only [φ, ω, if_pos h]; exact round4_close _
+  · refine ⟨_, geo2grid_unfold lat lon zone ell prj hv, round4_close _, ?_⟩
+    simp only [φ, ω, if_neg h]; exact round4_close _
 
 /-! ## 12. Call site of `psfandgridconv` -/
 
